@@ -366,12 +366,12 @@ theorem untilError_map_of_ok {α β : Type} (g : α → Except PyErr β) (l : Li
 
 /-! ## Part 4 — documentation-comment assembly -/
 
-theorem pySplit_ne_nil (s : String) (c : Char) : pySplit s c ≠ [] := by
+theorem pySplit_ne_nil_d (s : String) (c : Char) : pySplit s c ≠ [] := by
   unfold pySplit
   intro h
   exact splitOnChar_ne_nil c s.toList (List.map_eq_nil_iff.mp h)
 
-theorem splitLines_ne_nil (s : String) : splitLines s ≠ [] := pySplit_ne_nil s '\n'
+theorem splitLines_ne_nil (s : String) : splitLines s ≠ [] := pySplit_ne_nil_d s '\n'
 
 /-- prefixing every further item with the separator is joining with the separator -/
 theorem append_join_map_sep (sep : String) {α : Type} (g : α → String) (first : String) (rest : List α) :
@@ -822,7 +822,7 @@ theorem sdsDocstring_description_only (safe : Bool) (desc indent : String) :
 
 /-! ### splitting a joined list gives the list back -/
 
-theorem splitOnChar_append_sep (sep : Char) (l rest : List Char) (h : sep ∉ l) :
+theorem splitOnChar_append_sep_d (sep : Char) (l rest : List Char) (h : sep ∉ l) :
     splitOnChar sep (l ++ sep :: rest) = l :: splitOnChar sep rest := by
   induction l with
   | nil =>
@@ -839,38 +839,38 @@ theorem splitOnChar_append_sep (sep : Char) (l rest : List Char) (h : sep ∉ l)
     simp [this]
 
 /-- `joinWith` on character lists -/
-def joinL (sep : List Char) : List (List Char) → List Char
+def joinL_d (sep : List Char) : List (List Char) → List Char
   | [] => []
   | [a] => a
-  | a :: as => a ++ sep ++ joinL sep as
+  | a :: as => a ++ sep ++ joinL_d sep as
 
-theorem toList_joinWith (sep : String) (ls : List String) :
-    (joinWith sep ls).toList = joinL sep.toList (ls.map String.toList) := by
+theorem toList_joinWith_d (sep : String) (ls : List String) :
+    (joinWith sep ls).toList = joinL_d sep.toList (ls.map String.toList) := by
   induction ls with
   | nil => rfl
   | cons a ls ih =>
     cases ls with
     | nil => rfl
     | cons b ls =>
-      simp only [joinWith, String.toList_append, ih, List.map_cons, joinL]
+      simp only [joinWith, String.toList_append, ih, List.map_cons, joinL_d]
 
-theorem splitOnChar_joinL (sep : Char) (ls : List (List Char)) (hne : ls ≠ []) (h : ∀ l ∈ ls, sep ∉ l) :
-    splitOnChar sep (joinL [sep] ls) = ls := by
+theorem splitOnChar_joinL_d (sep : Char) (ls : List (List Char)) (hne : ls ≠ []) (h : ∀ l ∈ ls, sep ∉ l) :
+    splitOnChar sep (joinL_d [sep] ls) = ls := by
   induction ls with
   | nil => exact absurd rfl hne
   | cons a ls ih =>
     cases ls with
     | nil => exact splitOnChar_of_not_mem sep a (h a (by simp))
     | cons b ls =>
-      simp only [joinL, List.append_assoc, List.singleton_append]
-      rw [splitOnChar_append_sep sep a _ (h a (by simp))]
+      simp only [joinL_d, List.append_assoc, List.singleton_append]
+      rw [splitOnChar_append_sep_d sep a _ (h a (by simp))]
       rw [ih (by simp) (fun l hl => h l (by simp [hl]))]
 
 /-- `sep.join(ls).split(sep) == ls` for a one-character separator that occurs in no item -/
-theorem pySplit_joinWith (c : Char) (sep : String) (hsep : sep.toList = [c]) (ls : List String) (hne : ls ≠ [])
+theorem pySplit_joinWith_d (c : Char) (sep : String) (hsep : sep.toList = [c]) (ls : List String) (hne : ls ≠ [])
     (h : ∀ l ∈ ls, c ∉ l.toList) : pySplit (joinWith sep ls) c = ls := by
   unfold pySplit
-  rw [toList_joinWith, hsep, splitOnChar_joinL c _ (by simpa using hne)]
+  rw [toList_joinWith_d, hsep, splitOnChar_joinL_d c _ (by simpa using hne)]
   · simp [List.map_map, Function.comp_def]
   · intro l hl
     obtain ⟨s, hs, rfl⟩ := List.mem_map.mp hl
@@ -951,7 +951,7 @@ theorem descriptionLines_no_newline (d indent : String) (hi : '\n' ∉ indent.to
 theorem splitLines_descriptionPart (d indent : String) (hi : '\n' ∉ indent.toList) :
     splitLines (descriptionPart d indent) = descriptionLines d indent ++ [""] := by
   rw [descriptionPart_eq_join]
-  apply pySplit_joinWith '\n' "\n" (by decide) _ (by simp)
+  apply pySplit_joinWith_d '\n' "\n" (by decide) _ (by simp)
   intro l hl
   simp only [List.mem_append, List.mem_singleton] at hl
   rcases hl with hl | rfl
@@ -980,7 +980,7 @@ theorem splitLines_sdsDocstringDescription (d indent : String) (hd : d ≠ "") (
       joinWith_append _ (F :: R) [indent ++ " */", ""] (by simp) (by simp), e1, e2]
     simp only [joinWith, String.append_assoc, String.append_empty]
   rw [hjoin]
-  apply pySplit_joinWith '\n' "\n" (by decide) _ (by simp)
+  apply pySplit_joinWith_d '\n' "\n" (by decide) _ (by simp)
   have h1 : '\n' ∉ "/**".toList := by decide
   have h2 : '\n' ∉ " * ".toList := by decide
   have h3 : '\n' ∉ " */".toList := by decide
